@@ -99,7 +99,21 @@ func (c *Ctx) handlerExpr(v ssa.Value, h ssa.Value, guards map[string]core.Guard
 		if n != 1 {
 			return bad
 		}
+		// the wrapper is summarised for this call: a flag argument (`guarded(true, s.get)`) decides
+		// which tests apply
+		savedSubst := core.ParamSubst
+		ns := map[ssa.Value]ssa.Value{}
+		for k, v := range savedSubst {
+			ns[k] = v
+		}
+		for i, p := range callee.Params {
+			if i < len(x.Call.Args) {
+				ns[p] = x.Call.Args[i]
+			}
+		}
+		core.ParamSubst = ns
 		w := c.wrapperFunc(callee, guards, depth+1)
+		core.ParamSubst = savedSubst
 		sub := c.handlerExpr(farg, h, guards, depth+1)
 		if !w.ok || !sub.ok {
 			return bad
@@ -336,7 +350,15 @@ func checkC11(c *Ctx) {
 					// flags style: no wrapper around the handler, the dispatcher itself tests the
 					// session state before the dynamic call, depending on booleans set in the same case:
 					// decided per case, with the phis at the merge point resolved for this case
+					// the flags are constants of this case: the branches they decide are resolved first,
+					// then the guard's pass edges are computed with the dead ways of a merged condition
+					// (`needVers && s.ver == 0`) left out
+					core.DeadEdges = core.PhiCutsFrom(fn, []*ssa.BasicBlock{pred}, map[core.Edge]bool{})
 					cutG, cntG := core.PassEdges(fn, guards[need])
+					for e := range core.DeadEdges {
+						cutG[e] = true
+					}
+					core.DeadEdges = nil
 					for e := range core.PhiCutsFrom(fn, []*ssa.BasicBlock{pred}, cutG) {
 						cutG[e] = true
 					}
